@@ -13,6 +13,8 @@
 //!      the application replaces / removes the address in the middle of a TCP active open, an
 //!      established connection, datagrams waiting for neighbor resolution, a fragment train, a
 //!      DNS query) judged against the address list at the moment of transmission; the
+//!      the socket option hop limit {1, 2, 63, 64, 65, 254, 255} on UDP / ICMP / DNS / TCP
+//!      sockets and in raw packets (on 802.15.4 the decompressed hop limit must be the option);
 //!      application model "echo with the received metadata" (examples/server.rs) on UDP sockets
 //!      for unicast / broadcast / multicast destinations (own signatures
 //!      `C10/source/udp-echo-of-received-metadata/<kind of destination>`);
